@@ -137,7 +137,7 @@ func init() {
 // ---------------------------------------------------------------- dutydb
 
 func runDutyDB(t *testing.T, rt *rapid.T, k valgen.Kind, seed int64) (bool, string) {
-	ctx, cancel := context.WithTimeout(context.Background(), 5*time.Second)
+	ctx, cancel := context.WithCancel(context.Background()) // no wall-clock deadline: a slow machine is not a violation
 	defer cancel()
 	v := valgen.Unsigned(t, k, seed)
 	if p, ok := v.(core.VersionedProposal); ok {
